@@ -19,18 +19,19 @@ BasesH == {<<HNew(<<>>), HIc("digit", "digit"), HAddOp("a.example.com")>> \o [i 
            <<HNew(BaseH2)>>, <<HNew(<<>>), HIc("digit", "digit")>> \o [i \in 1..Len(BaseH3) |-> HAddOp(BaseH3[i])]}
 HOpsH == {HAddOp(d) : d \in {"h.example.com", "API.Example.com", "{sub}.example.com", "{id}.example.com", "{n:digit}.c.com", "a.example.com", "{Sub:\\w+}.B.com"}}
          \cup {HDel(d) : d \in {"a.example.com", "A.EXAMPLE.COM", "f.example.com", "{sub}.example.com", "{SUB}.Example.com", "zz.example.com", "::1", "api.example.com"}}
-Forms(h, wit, wps) == {HM(h, wit, wps), HM(h \o ":80", wit, wps), HM(h \o ":", wit, wps), HM(h \o ":8x", "", <<>>)}
+\* (a port is ':' followed by digits only, any number of them - the rule the implementation documents, net/url's)
+Forms(h, wit, wps) == {HM(h, wit, wps), HM(h \o ":80", wit, wps), HM(h \o ":", wit, wps), HM(h \o ":8x", "", <<>>), HM(h \o ":65536", wit, wps), HM(h \o ":0100000", wit, wps)}
 ProbesH == UNION {Forms(d, d, <<>>) : d \in ToSet(LitD) \cup {"api.example.com", "h.example.com"}}
            \cup Forms("A.EXAMPLE.COM", "a.example.com", <<>>) \cup Forms("F.Example.Com", "f.example.com", <<>>)
            \cup Forms("7q.example.com", "{sub}.example.com", [sub |-> "7q"]) \cup Forms("7Q.EXAMPLE.com", "{sub}.example.com", [sub |-> "7q"])
            \cup Forms("7q.example.com", "{id}.example.com", [id |-> "7q"])
            \cup Forms("7q8.b.com", "{sub:\\w+}.b.com", [sub |-> "7q8"]) \cup Forms("77.c.com", "{n:digit}.c.com", [n |-> "77"])
-           \cup {HM("[::1]", "::1", <<>>), HM("[::1]:80", "::1", <<>>), HM("::1", "", <<>>), HM("[::1]:8x", "", <<>>), HM("[::1]8080", "", <<>>), HM("[::1]:80:90", "", <<>>),
+           \cup {HM("[::1]", "::1", <<>>), HM("[::1]:80", "::1", <<>>), HM("[::1]:65536", "::1", <<>>), HM("::1", "", <<>>), HM("[::1]:8x", "", <<>>), HM("[::1]8080", "", <<>>), HM("[::1]:80:90", "", <<>>),
                  HM("[a.example.com]:80", "a.example.com", <<>>), HM("[7q.example.com]", "{sub}.example.com", [sub |-> "7q"]), HM("[a.example.com]x", "", <<>>), HM("a.example.com]", "", <<>>), HM("7.q.b.com", "", <<>>), HM("7q.c.com", "", <<>>),
                  HM("", "", <<>>), HM("*", "", <<>>), HM("example.com", "", <<>>), HM(".example.com", "", <<>>), HM("zz.example.com.", "", <<>>)}
 
 \* ---------------------------------------------------------------- C15
-VerPool == {"v1", "v11", "/v1", "v1/", "/v2/"}
+VerPool == {"v1", "v11", "/v1", "v1/", "/v2/", "v/1"}
 VerLists == {<<a>> : a \in VerPool} \cup {<<a, b>> : a, b \in VerPool} \cup {<<"v1", "v11", "/v2/">>, <<"v11", "v1", "v2">>}
 RECURSIVE StrsUp(_, _)
 StrsUp(alpha, n) == IF n = 0 THEN {""} ELSE LET S == StrsUp(alpha, n - 1) IN S \cup {s \o c : s \in S, c \in alpha}
